@@ -111,6 +111,18 @@ func eventHash(res *Result) uint64 {
 	return h.Sum64()
 }
 
+// safeCheck runs the oracle; a crash of the oracle itself is an engine error, never a violation.
+func (e *explorer) safeCheck(res *Result) (msg string) {
+	defer func() {
+		if r := recover(); r != nil {
+			e.rep.EngineError = fmt.Sprintf("oracle crashed: %v", r)
+			e.stop = true
+			msg = ""
+		}
+	}()
+	return e.sc.Check(res)
+}
+
 func (e *explorer) check(x *Exec, res *Result, choices []int32, devs int, counted bool) {
 	if x.diverged != "" {
 		e.rep.EngineError = x.diverged
@@ -151,7 +163,10 @@ func (e *explorer) check(x *Exec, res *Result, choices []int32, devs int, counte
 			return
 		}
 	}
-	msg := e.sc.Check(res)
+	msg := e.safeCheck(res)
+	if e.stop {
+		return
+	}
 	if msg == "" {
 		return
 	}
